@@ -166,6 +166,10 @@ def gen_lock(rng, idx, tier, force=None):
         k = rng.randint(n, T - 3 * n)
         k -= k % n
         c["Ks"] = [k + rng.randint(1, n - 1)]
+        # the variable's value is held still around the stop: its stored value is as old as its last update, and the
+        # library (rightly) refuses a state whose value is far from the one it computes after the resume
+        for t in range(k - n, min(T, k + 3 * n) + 1):
+            c["hist"][t] = c["hist"][k - n]
     c["traj"] = (idx % 3 == 0)
     return c
 
@@ -429,6 +433,7 @@ def analyse(c, case, outs):
                         return V
             # ---- bias forces observed at this step -------------------------------------------------
             F_nb, F_byp = 0.0, 0.0
+            A_nb, A_byp = 0.0, 0.0      # sums of magnitudes: scale of the rounding of the force sums
             for b in case["biases"]:
                 be = e["bias"].get(b["name"])
                 if be is None or not be["f"]:
@@ -447,8 +452,10 @@ def analyse(c, case, outs):
                     return V
                 if b["bypass"]:
                     F_byp += fo
+                    A_byp += abs(fo)
                 else:
                     F_nb += fo
+                    A_nb += abs(fo)
             # ---- model ---------------------------------------------------------------------------
             fresh = (e["rel"] == 0 and ip == 0 and not rep and model.x is None)
             if model.x is None and not fresh:
@@ -522,20 +529,24 @@ def analyse(c, case, outs):
                 spring = p.k * d_
                 f_now = spring + F_nb
                 t13 = 64 * EPS
+                # rounding model of one update: the force sum carries ~eps x (sum of magnitudes) (scaling by the time-step
+                # factor and back included), a velocity ~eps x (magnitudes of its terms) plus h/m times the force error
+                df = 16 * EPS * (abs(spring) + A_nb)
                 if not close(Ep, 0.5 * p.k * d_ * d_, t13, 1e-300):
                     V.bad = ("same_origin:Ep:" + K, "step %d: Ep %.17g is not k/2 (xa - x)^2 = %.17g of the values reported at the same step" % (t, Ep, 0.5 * p.k * d_ * d_))
                     return V
                 f_exp = spring if case["subtract"] else f_now
-                if abs(ft - f_exp) > t13 * (abs(spring) + abs(F_nb) + 1e-300):
+                if abs(ft - f_exp) > df + 1e-300:
                     V.bad = ("same_origin:total_force:" + K, "step %d: total force %.17g; spring%s of the same step gives %.17g (spring %.17g, biases %.17g)" % (
                         t, ft, "" if case["subtract"] else " + biases", f_exp, spring, F_nb))
                     return V
-                if abs(fa - F_nb) > t13 * (abs(F_nb) + 1e-300):
+                if abs(fa - F_nb) > 16 * EPS * A_nb + 1e-300:
                     V.bad = ("same_origin:applied_force:" + K, "step %d: applied force %.17g, biases acting on the coordinate %.17g" % (t, fa, F_nb))
                     return V
                 kick = 0.5 * p.h * f_now / p.m
                 v_on = v_rep + kick
-                if abs(Ek - 0.5 * p.m * v_on * v_on) > t13 * p.m * (abs(v_rep) + abs(kick)) ** 2 + 1e-300:
+                dv = 16 * EPS * (abs(v_rep) + abs(kick)) + p.h * df / p.m
+                if abs(Ek - 0.5 * p.m * v_on * v_on) > p.m * (abs(v_on) + dv) * dv + 16 * EPS * Ek + 1e-300:
                     V.bad = ("same_origin:Ek:" + K, "step %d: Ek %.17g is not m/2 (v + h f/2m)^2 = %.17g with v, f reported at the same step" % (t, Ek, 0.5 * p.m * v_on * v_on))
                     return V
                 v1 = v_rep + 2.0 * kick                              # (10a)
@@ -545,14 +556,14 @@ def analyse(c, case, outs):
                     lhs = ex - x_rep
                     rhs = 0.5 * p.h * v1 + 0.5 * p.h * evv
                     dev = p.mi(lhs - rhs) if o1["wrapped"] else lhs - rhs
-                    if abs(dev) > 16 * EPS * (psc + (p.period if o1["wrapped"] else 0.0)):
+                    if abs(dev) > 16 * EPS * (psc + (p.period if o1["wrapped"] else 0.0)) + p.h * dv:
                         V.bad = ("same_origin:position_update:" + K, "step %d: x_(t+1) - x_t = %.17g but h/2 (v + h f/m) + h/2 v_next = %.17g%s" % (
                             t, lhs, rhs, " (modulo the period)" if o1["wrapped"] else ""))
                         return V
                     if p.period > 0.0 and not (p.wrap_center - 0.5 * p.period <= ex < p.wrap_center + 0.5 * p.period):
                         V.bad = ("periodic_not_wrapped:" + K.split(":")[1], "step %d: coordinate %.17g outside the period centred on %g" % (t, ex, p.wrap_center))
                         return V
-                    if abs(evv - v2) > t13 * (abs(v_rep) + abs(2 * kick) + abs(p.noise * g1)) + 1e-300:
+                    if abs(evv - v2) > 2.0 * dv + 16 * EPS * (abs(v1) + abs(p.noise * g1)) + 1e-300:
                         V.bad = ("same_origin:velocity_update:" + K, "step %d: v_next %.17g; exp(-gamma h)(v + h f/m) + sqrt(kT(1-exp(-2 gamma h))/m) g = %.17g "
                                  "(v %.17g, f %.17g, g %.17g)" % (t, evv, v2, v_rep, f_now, g1))
                         return V
@@ -560,16 +571,16 @@ def analyse(c, case, outs):
                     # reflection: the arrival position is mirrored at the wall, the particle leaves with reversed momentum
                     b_ = p.lower if o1["bounced"] < 0 else p.upper
                     arr = x_rep + 0.5 * p.h * v1 + 0.5 * p.h * v2
-                    if abs(ex - (2.0 * b_ - arr)) > 16 * EPS * (psc + abs(b_)):
+                    if abs(ex - (2.0 * b_ - arr)) > 16 * EPS * (psc + abs(b_)) + 2.0 * p.h * dv:
                         V.bad = ("reflection:position:" + K.split(":")[0] + ":" + K.split(":")[1], "step %d: arrival %.17g beyond the wall %g, coordinate after the update %.17g, "
                                  "mirror image %.17g" % (t, arr, b_, ex, 2.0 * b_ - arr))
                         return V
                     V.refl += 1
                     if evv * o1["bounced"] > 0.0:
                         V.refl_towards += 1      # leaves the update moving towards the wall it was reflected from
-                    if abs(evv + v2) <= t13 * (abs(v2) + abs(v_rep)):
+                    if abs(evv + v2) <= t13 * (abs(v2) + abs(v_rep)) + 2.0 * dv:
                         V.refl_last += 1         # -v_(t+1/2)
-                    elif abs(evv + 0.5 * (v_rep + v2)) <= t13 * (abs(v2) + abs(v_rep)):
+                    elif abs(evv + 0.5 * (v_rep + v2)) <= t13 * (abs(v2) + abs(v_rep)) + 2.0 * dv:
                         V.refl_mean += 1         # -(v_(t-1/2) + v_(t+1/2))/2
                     else:
                         V.bad = ("reflection:velocity:" + K.split(":")[0] + ":" + K.split(":")[1], "step %d: arrival velocity %.17g (previous half step %.17g), velocity after "
@@ -578,7 +589,7 @@ def analyse(c, case, outs):
                 # routing, model-free: the variable's atoms feel tsf * (k (x - xa) + bypassing biases), nothing else
                 F_var = float(p.tsf) * (-spring) + float(p.tsf) * F_byp
                 o = fl(af[v["plus"]][v["axis"]])
-                if abs(o - F_var) > t13 * float(p.tsf) * (abs(spring) + abs(F_byp)) + 1e-300:
+                if abs(o - F_var) > 16 * EPS * float(p.tsf) * (abs(spring) + A_byp) + 1e-300:
                     what = "routing:bias_on_atoms" if abs(o - (F_var + p.tsf * F_nb)) <= 1e-9 * (abs(o) + 1e-300) and F_nb != 0.0 else "routing:atoms"
                     V.bad = ("%s:%s:%s" % (what, case.get("bias_kind", "none"), "mts" if p.tsf > 1 else "tsf1"),
                              "step %d: force on the variable's atoms %.17g; coupling spring%s of this step: %.17g (biases on the coordinate: %.17g)" % (
